@@ -15,6 +15,10 @@ def check(model: Model, run: Run) -> None:
     # extractor cannot follow
     purity(model, run, None)
     written_as_held(model, run)
+    from .c17 import hooks_store_fields_as_given
+    wire = sorted(q for q, c in model.classes.items() if c.is_dataclass and c.module in ("sansldap._messages", "sansldap._controls", "sansldap._filter", "sansldap._authentication"))
+    hooks_store_fields_as_given(model, run, wire, "W17-fields-held-as-given",
+                                "the value a decoder builds is changed again on construction, so what is decoded is not what was encoded for the inputs the rewrite touches")
     ex = extracted(model)
     run.explanation = ("sibling cross-check of the two implementations of each type: the TLV grammar the writer can emit and the grammar the reader accepts are both "
                        "extracted by abstract interpretation; every emitted component must be accepted by the reader at that point (by position for mandatory "
